@@ -56,6 +56,8 @@ pub struct Store<'p> {
     pub trace: Option<Vec<(WStep, u8)>>,
     /// the code under test kept calling although every step failed: it does not terminate
     pub runaway: bool,
+    /// an enum variant was written (this medium does not store enums)
+    pub saw_enum: bool,
 }
 
 impl<'p> Store<'p> {
@@ -72,6 +74,7 @@ impl<'p> Store<'p> {
             log: Fnv::default(),
             trace: None,
             runaway: false,
+            saw_enum: false,
         }
     }
 
@@ -298,6 +301,7 @@ impl<'a, 'p> ser::Serializer for &'a mut Store<'p> {
         _i: u32,
         variant: &'static str,
     ) -> Result<(), SimError> {
+        self.saw_enum = true;
         self.leaf(Node::Other(format!("{}::{}", name, variant)))
     }
     fn serialize_newtype_struct<T: ?Sized + Serialize>(
@@ -331,6 +335,7 @@ impl<'a, 'p> ser::Serializer for &'a mut Store<'p> {
         variant: &'static str,
         _value: &T,
     ) -> Result<(), SimError> {
+        self.saw_enum = true;
         self.leaf(Node::Other(format!("{}::{}(..)", name, variant)))
     }
     fn serialize_seq(self, len: Option<usize>) -> Result<Compound<'a, 'p>, SimError> {
@@ -362,6 +367,7 @@ impl<'a, 'p> ser::Serializer for &'a mut Store<'p> {
         _variant: &'static str,
         len: usize,
     ) -> Result<Compound<'a, 'p>, SimError> {
+        self.saw_enum = true;
         self.serialize_tuple_struct(name, len)
     }
     fn serialize_map(self, len: Option<usize>) -> Result<Compound<'a, 'p>, SimError> {
@@ -387,6 +393,7 @@ impl<'a, 'p> ser::Serializer for &'a mut Store<'p> {
         _variant: &'static str,
         len: usize,
     ) -> Result<Compound<'a, 'p>, SimError> {
+        self.saw_enum = true;
         self.serialize_struct(name, len)
     }
     fn is_human_readable(&self) -> bool {
